@@ -47,22 +47,26 @@ Section C04INV.
       (th_k th = [1] ->
          th_shut_issue th = false /\ expired (th_issued th) (usleep_exp th d) = false /\
          th_ts th = usleep_exp th d /\ clock <= th_ts th /\
-         (th_state th = SLEEPING \/ th_err th <> 0 \/ now = th_ts th)) /\
+         (th_state th = SLEEPING \/ th_err th <> 0 \/ clock = th_ts th)) /\
       (th_k th = [2] -> expired (th_issued th) (usleep_exp th d) = true /\ th_state th <> SLEEPING) /\
       (th_k th = [3] ->
          th_shut_issue th = true /\ expired (th_issued th) (usleep_exp th d) = false /\
          th_ts th = usleep_exp3 th d /\ clock <= th_ts th /\
-         (th_state th = SLEEPING \/ th_err th <> 0 \/ now = th_ts th));
+         (th_state th = SLEEPING \/ th_err th <> 0 \/ clock = th_ts th));
     g_src : th_err th <> 0 ->
             src_ok tr t (th_err th) (th_esrc th) \/
             (th_err th = -1 /\ (exists j, cur_op t th = Some (OCore (OJoin j))) /\ th_k th = [1]);
     g_wq : forall q, th_waitq th = Some q ->
-           exists j, q = QJoin j /\ cur_op t th = Some (OCore (OJoin j)) /\ th_k th = [1]
+           exists j, q = QJoin j /\ cur_op t th = Some (OCore (OJoin j)) /\ th_k th = [1];
+    (* a thread is inside an op only while it exists and has not died *)
+    g_kstate : th_k th <> [] -> th_state th = READY \/ th_state th = RUNNING \/ th_state th = SLEEPING;
+    (* past the end of its program a thread (other than the parked main thread) is in no op *)
+    g_end : t <> 0%nat -> cur_op t th = None -> th_k th = []
   }.
 
   Lemma GoodT_mono t th now clock tr x : GoodT t th now clock tr -> GoodT t th now clock (x :: tr).
   Proof.
-    intros [A B C D E]. constructor; auto.
+    intros [A B C D E F G]. constructor; auto.
     intros H. destruct (D H) as [S|S]; [left; apply src_ok_mono; auto|right; auto].
   Qed.
 
@@ -109,6 +113,7 @@ Section C04INV.
     gi_n : nthreads st = S (length progs);
     gi_sync : s_now st = s_clock st \/ (s_runq st = [idler_tid st] /\ hq (s_sleepq st) <> []);
     gi_max : s_clock st <= MAX64;
+    gi_pos : 0 <= s_now st;
     gi_ring : forall t, th_state (getth st t) = READY \/ th_state (getth st t) = RUNNING -> In t (s_runq st);
     gi_good : forall t, (t < length progs)%nat -> GoodT t (getth st t) (s_now st) (s_clock st) (s_trace st);
     gi_idler_k : th_state (getth st (idler_tid st)) <> SLEEPING
